@@ -37,9 +37,9 @@ def inputs_a(bpt, tier):
         for sc in pv.gen_scaffolds(style, "scaffold_1", 2, lens, SEPS):
             out.append((sc,))
     if tier == "thorough":
-        for style in ("tpf", "fasta"):
-            for sc in pv.gen_scaffolds(style, "scaffold_1", 3, lens[1:], SEPS[:2], strands=(1, -1)):
-                if sum(1 for r in sc[1] if r[0] == "F") == 3:
+        for style in ("tpf", "sub"):
+            for sc in pv.gen_scaffolds(style, "scaffold_1", 3, [lens[1], lens[-1]], SEPS[:2], strands=(1, -1)):
+                if sum(1 for r in sc[1] if r[0] == "F") == 3 and sc[1][0][4] == 1:
                     out.append((sc,))
     # two scaffolds: first has 1-2 contigs, second a single contig
     small = lens[:2] if tier == "quick" else lens[:3]
@@ -140,16 +140,17 @@ class C01(Check):
     def scope_a(self, bpt, chunk, chunks, tier, ctx):
         inputs = inputs_a(bpt, tier)
         full = tier == "thorough"
-        margin = (3 if full else 1) * err_len(bpt) + 2
+        margin = (2 if full else 1) * err_len(bpt) + 2
         for i, inp in enumerate(inputs):
             if i % chunks != chunk:
                 continue
             two = len(inp) > 1
             for pieces in pv.pv_piece_lists(inp, bpt, max_cuts=1 if two else 2, max_pieces=3, margin=margin):
                 n = len(pieces)
-                arrs = pv.arrangements(n) if (n < 3 or full) else pv.arrangements_reduced(n)
+                arrs = pv.arrangements(n) if n < 3 else pv.arrangements_reduced(n)
                 for arr in arrs:
-                    for painted in pv.painted_patterns(len(arr), full=False):
+                    pats = pv.painted_patterns(len(arr), full=False)
+                    for painted in pats if (n < 3 or not full) else pats[:2]:
                         self.run_case(inp, pv.make_pv(bpt, pieces, arr, painted), ctx, "pv")
         if inputs:
             inp = inputs[chunk % len(inputs)]
